@@ -41,3 +41,9 @@ pub use self::from_variant::FromVariant;
 pub use quote::ToTokens;
 #[doc(hidden)]
 pub use syn;
+
+/// Verification seam (off unless built with `--cfg darling_verif`): lets a simulator own the
+/// hasher state of the duplicate-key set used by the map conversions.
+#[cfg(darling_verif)]
+#[doc(hidden)]
+pub mod verif;
